@@ -3,5 +3,5 @@
 set -euo pipefail
 cd ${VERIF_HOME:-/verif}
 mkdir -p build run evidence
-bin/build.sh ksim storex frontx routex pollx queuex
+bin/build.sh ksim storex frontx routex pollx queuex procx
 echo "setup: harness binaries built"
